@@ -7,6 +7,7 @@ from . import filters_common as fc
 PROPERTY = "C15"
 TRACE_MODULE = "FilterTrace"
 TRACE_CFG = "FilterTrace.cfg"
+ACCEPTORS = {"_default": ("FilterTrace", "FilterTrace.cfg"), "pipe": ("PipelineTrace", "PipelineTrace.cfg")}
 RULE = ("random acyclic glyph sets (3-7 glyphs, depth <= 3, affine palette incl. mirrors/shear/rotation, k/4 coordinates "
         "with ties) x {Decompose, DecomposeTransformed, Flatten, SkipExport, Transformations, PropagateAnchors} x include "
         "specifications x {defcon, ufoLib2}; one case in four applies PropagateAnchors to a glyph set shaped for it (accented composites, "
@@ -159,10 +160,121 @@ def cases(tier, seed):
                           "separate": rng.random() < 0.85})
         out.append({"cid": f"c15-{seed}-{k}", "lib": rng.choice(["ufoLib2", "defcon"]), "filter": spec,
                     "steps": steps, "again": spec["name"] == "PropagateAnchors"})
+    out += _pipe_cases(random.Random(seed * 7919 + 150015), 8 if tier == "quick" else 100, f"c15-{seed}")
     return out
 
 
+def _pipe_cases(rng, n, prefix):
+    """Interpolatable families with a SPARSE master that holds composites but not their bases, compiled with lib pre-filters:
+    anchor propagation (which looks at the interpolated bases), then a transformations filter moving the bases, then the
+    default decomposition.  What the sparse master's composites render is the moved, interpolated base."""
+    from ..absfont import MS, PS
+
+    out = []
+    for k in range(n):
+        def sq(x, y, w, h):
+            return [[x * PS, y * PS, "line"], [(x + w) * PS, y * PS, "line"], [(x + w) * PS, (y + h) * PS, "line"], [x * PS, (y + h) * PS, "line"]]
+
+        masters = []
+        for j in range(2):
+            x0, w = rng.randint(0, 20) * 2, rng.randint(50, 120) * 2
+            B = {"cs": [sq(x0, 0, w, 2 * rng.randint(100, 200))], "comps": [], "w": (w + 40) * PS, "h": 0, "u": [0x42],
+                 "anchors": [{"n": "top", "x": (x0 + w // 2) * PS, "y": 2 * rng.randint(200, 300) * PS}]}
+            C = {"cs": [sq(2 * rng.randint(0, 30), 2 * rng.randint(0, 30), 60, 80)], "comps": [], "anchors": [], "w": 300 * PS, "h": 0, "u": [0x43]}
+            masters.append({"B": B, "C": C})
+        flip = [[MS, 0, 0, MS], [-MS, 0, 0, MS], [MS, 0, 0, MS]][k % 3]
+        comps_ = [[{"b": "B", "m": flip, "d": [2 * rng.randint(0, 50) * PS, 2 * rng.randint(0, 20) * PS]}] for _ in range(3)]
+        for j, m in enumerate(masters):
+            m["A"] = {"cs": [], "comps": [dict(comps_[j][0], d=list(comps_[j][0]["d"]))] + ([{"b": "C", "m": [MS, 0, 0, MS], "d": [400 * PS, 0]}] if k % 2 else []),
+                      "anchors": [], "w": 2 * rng.randint(200, 300) * PS, "h": 0, "u": [0x41]}
+        sparse = {"A": {"cs": [], "comps": [dict(comps_[2][0], d=list(comps_[2][0]["d"]))] + ([{"b": "C", "m": [MS, 0, 0, MS], "d": [400 * PS, 0]}] if k % 2 else []),
+                        "anchors": [], "w": 2 * rng.randint(200, 300) * PS, "h": 0, "u": [0x41]}}
+        off = [50, -30, 12][k % 3]
+        out.append({"cid": f"{prefix}-pp{k}", "pipe": True, "lib": rng.choice(["ufoLib2", "defcon"]), "masters": masters, "sparse": sparse,
+                    "offset": off, "moved": ["B"] if k % 4 else ["B", "C"], "standalone": k % 2 == 0,
+                    "filters": [{"name": "propagateAnchors", "pre": True},
+                                {"name": "transformations", "pre": True, "kwargs": {"OffsetX": off}, "include": ["B"] if k % 4 else ["B", "C"]}]})
+    return out
+
+
+def _execute_pipe(case):
+    import copy
+
+    import ufo2ft
+
+    from .. import absfont, dsbuild, project
+    from ..absfont import PS
+
+    lib = case["lib"]
+    fam_masters = []
+    info = {"unitsPerEm": 1000, "ascender": 800, "descender": -200, "familyName": "SparsePipe"}
+    for k, gs in enumerate(case["masters"]):
+        ufo = {"glyphs": copy.deepcopy(gs), "order": sorted(gs), "glyphNames": sorted(gs), "info": dict(info, styleName=f"M{k}"),
+               "lib": {"com.github.googlei18n.ufo2ft.filters": copy.deepcopy(case["filters"])}}
+        if k == 0 and not case["standalone"]:
+            ufo["layers"] = {"sparse": copy.deepcopy(case["sparse"])}
+        fam_masters.append({"loc": {"Weight": [0, 8][k]}, "ufo": ufo, "name": f"M{k}"})
+    if case["standalone"]:
+        sp = copy.deepcopy(case["sparse"])
+        fam_masters.append({"loc": {"Weight": 4}, "name": "Sparse", "standalone": True,
+                            "ufo": {"glyphs": sp, "order": sorted(sp), "glyphNames": sorted(sp), "info": dict(info, styleName="Sparse"),
+                                    "lib": {"com.github.googlei18n.ufo2ft.filters": copy.deepcopy(case["filters"])}}})
+    else:
+        fam_masters.append({"loc": {"Weight": 4}, "layer": "sparse", "of": 0, "name": "Sparse"})
+    family = {"axes": [{"name": "Weight", "tag": "wght", "min": 0, "default": 0, "max": 8}], "masters": fam_masters, "lib": {}}
+    ds = dsbuild.build_designspace(family, lib)
+    # declared sources: the moved glyphs shifted by hand; the sparse master completed with the mid-point blend of its bases
+    off = case["offset"] * PS
+
+    def moved(g):
+        h = copy.deepcopy(g)
+        for c in h["cs"]:
+            for p in c:
+                p[0] += off
+        for a in h["anchors"]:
+            a["x"] += off
+        return h
+
+    decl = []
+    for gs in case["masters"]:
+        decl.append({n: (moved(g) if n in case["moved"] else copy.deepcopy(g)) for n, g in gs.items()})
+    mid = copy.deepcopy(case["sparse"])
+    for n in ("B", "C"):
+        a, b = decl[0][n], decl[1][n]
+        g = copy.deepcopy(a)
+        for ci, c in enumerate(g["cs"]):
+            for pi, p in enumerate(c):
+                p[0] = (a["cs"][ci][pi][0] + b["cs"][ci][pi][0]) // 2
+                p[1] = (a["cs"][ci][pi][1] + b["cs"][ci][pi][1]) // 2
+        g["w"] = (a["w"] + b["w"]) // 2
+        g["anchors"] = []
+        mid[n] = g
+    decl.append(mid)
+    for d in decl:
+        for g in d.values():
+            g["anchors"] = []       # (anchors are not part of what PipelineTrace compares)
+    try:
+        outs = [s.font for s in ufo2ft.compileInterpolatableOTFsFromDS(ds, useProductionNames=False).sources]
+        err = ""
+    except Exception as e:  # noqa
+        outs, err = [None] * 3, type(e).__name__ + ":" + str(e)[:80]
+    recs = []
+    for k, (src, otf) in enumerate(zip(decl, outs)):
+        rec = {"tid": f"{case['cid']}-m{k}", "_acc": "pipe", "flavor": "cff", "src": src, "master": k, "events": [],
+               "opts": {"skip": ["B", "C"] if k == 2 else [], "tolS": PS // 2, "inplace": False, "flatten": False,
+                        "convertCubics": True, "reverse": True, "expectErr": "", "tolMilli": 0}}
+        if err:
+            rec["ret"] = {"err": err}
+        else:
+            data, f2 = project.save_reload(otf)
+            rec["ret"] = {"order": f2.getGlyphOrder(), "adv": project.advances(f2), "outline": project.cff_outlines(f2)}
+        recs.append(rec)
+    return recs
+
+
 def execute(case):
+    if case.get("pipe"):
+        return _execute_pipe(case)
     return fc.invoke_history(case)
 
 
@@ -173,6 +285,8 @@ def preclassify(rec, rep):
 
 
 def nontrivial(rec):
+    if rec.get("_acc") == "pipe":
+        return rec["master"] == 2
     return bool(rec.get("modified"))
 
 
